@@ -13,7 +13,8 @@ type op struct {
 	store  bool
 	cookie []byte
 	sc     script
-	host   string // address the fetcher dials (ServerName)
+	host   string // address the fetcher dials (ServerName), or the address the name resolves to
+	named  bool   // the fetcher is given the name "localhost" instead of an address literal
 }
 
 func fmtRecs(rs []rec) string {
@@ -32,7 +33,11 @@ func fmtOp(o op) string {
 	for i, a := range o.sc.alpn {
 		al[i] = lib.B([]byte(a))
 	}
-	ch := []string{lib.I(int64(o.sc.ending))}
+	e := o.sc.ending
+	if o.named {
+		e += 10
+	}
+	ch := []string{lib.I(int64(e))}
 	for _, c := range o.sc.chunks {
 		ch = append(ch, lib.I(int64(c)))
 	}
@@ -122,7 +127,8 @@ func parseOp(v val) op {
 	o.host = string(l[6].b)
 	ch := l[8].l
 	if len(ch) > 0 {
-		o.sc.ending = int(ch[0].z)
+		o.sc.ending = int(ch[0].z) % 10
+		o.named = ch[0].z >= 10
 		for _, c := range ch[1:] {
 			o.sc.chunks = append(o.sc.chunks, int(c.z))
 		}
